@@ -51,7 +51,9 @@ ASSUMPTIONS = ["the result object and addOnException handlers do not raise",
 EXPLANATION = ("Theorems in coq/Props/C05.v over all programs; correspondence: TestCase.run of a generated "
                "testtools.TestCase subclass against a recording extended result, compared with coq/Model/Run.v on the "
                "details passed with the outcome (base name + payload read at that moment, traceback count) and on the "
-               "addOnException handler calls and their position relative to the outcome.")
+               "addOnException handler calls and their position relative to the outcome. A share of the programs "
+               "raises ONE exception object repeatedly (same_exc: body and tearDown, twice in a MultipleExceptions); "
+               "the model counts every raise.")
 
 FEATS = frozenset(["details", "fixture", "onexc", "cells", "badfx", "peek"])
 
